@@ -299,25 +299,25 @@ var _AOpContextTable = []_OpContextType{
 	AFSW:       {Opcode: _OpBase_STORE_FP, ArgMarks: _ARG_SType, Funct3: 0b_010},
 	AFMADD_S:   {Opcode: _OpBase_MADD, ArgMarks: _ARG_R4Type, Funct7: 0b_00},  // funct2
 	AFMSUB_S:   {Opcode: _OpBase_MSUB, ArgMarks: _ARG_R4Type, Funct7: 0b_00},  // funct2
-	AFNMSUB_S:  {Opcode: _OpBase_NMADD, ArgMarks: _ARG_R4Type, Funct7: 0b_00}, // funct2
-	AFNMADD_S:  {Opcode: _OpBase_NMSUB, ArgMarks: _ARG_R4Type, Funct7: 0b_00}, // funct2
+	AFNMSUB_S:  {Opcode: _OpBase_NMSUB, ArgMarks: _ARG_R4Type, Funct7: 0b_00}, // funct2
+	AFNMADD_S:  {Opcode: _OpBase_NMADD, ArgMarks: _ARG_R4Type, Funct7: 0b_00}, // funct2
 	AFADD_S:    {Opcode: _OpBase_OP_FP, ArgMarks: _ARG_RType, Funct7: 0b_000_0000},
 	AFSUB_S:    {Opcode: _OpBase_OP_FP, ArgMarks: _ARG_RType, Funct7: 0b_000_0100},
 	AFMUL_S:    {Opcode: _OpBase_OP_FP, ArgMarks: _ARG_RType, Funct7: 0b_000_1000},
 	AFDIV_S:    {Opcode: _OpBase_OP_FP, ArgMarks: _ARG_RType, Funct7: 0b_000_1100},
-	AFSQRT_S:   {Opcode: _OpBase_OP_FP, ArgMarks: _ARG_RType, Funct7: 0b_000_1100, Rs2: newU32(0b_0_0000)},
+	AFSQRT_S:   {Opcode: _OpBase_OP_FP, ArgMarks: _ARG_RType, Funct7: 0b_010_1100, Rs2: newU32(0b_0_0000)},
 	AFSGNJ_S:   {Opcode: _OpBase_OP_FP, ArgMarks: _ARG_RType, Funct7: 0b_001_0000},
-	AFSGNJN_S:  {Opcode: _OpBase_OP_FP, ArgMarks: _ARG_RType, Funct7: 0b_001_0000},
-	AFSGNJX_S:  {Opcode: _OpBase_OP_FP, ArgMarks: _ARG_RType, Funct7: 0b_001_0000},
-	AFMIN_S:    {Opcode: _OpBase_OP_FP, ArgMarks: _ARG_RType, Funct7: 0b_001_0100, Rs2: newU32(0b_0_0000)},
-	AFMAX_S:    {Opcode: _OpBase_OP_FP, ArgMarks: _ARG_RType, Funct7: 0b_001_0100, Rs2: newU32(0b_0_0001)},
+	AFSGNJN_S:  {Opcode: _OpBase_OP_FP, ArgMarks: _ARG_RType, Funct3: 0b_001, Funct7: 0b_001_0000},
+	AFSGNJX_S:  {Opcode: _OpBase_OP_FP, ArgMarks: _ARG_RType, Funct3: 0b_010, Funct7: 0b_001_0000},
+	AFMIN_S:    {Opcode: _OpBase_OP_FP, ArgMarks: _ARG_RType, Funct7: 0b_001_0100},
+	AFMAX_S:    {Opcode: _OpBase_OP_FP, ArgMarks: _ARG_RType, Funct3: 0b_001, Funct7: 0b_001_0100},
 	AFCVT_W_S:  {Opcode: _OpBase_OP_FP, ArgMarks: _ARG_RType, Funct7: 0b_110_0000, Rs2: newU32(0b_0_0000)},
-	AFCVT_WU_S: {Opcode: _OpBase_OP_FP, ArgMarks: _ARG_RType, Funct7: 0b_110_0000},
+	AFCVT_WU_S: {Opcode: _OpBase_OP_FP, ArgMarks: _ARG_RType, Funct7: 0b_110_0000, Rs2: newU32(0b_0_0001)},
 	AFMV_X_W:   {Opcode: _OpBase_OP_FP, ArgMarks: _ARG_RType, Funct7: 0b_111_0000},
-	AFEQ_S:     {Opcode: _OpBase_OP_FP, ArgMarks: _ARG_RType, Funct7: 0b_101_0000},
-	AFLT_S:     {Opcode: _OpBase_OP_FP, ArgMarks: _ARG_RType, Funct7: 0b_101_0000},
+	AFEQ_S:     {Opcode: _OpBase_OP_FP, ArgMarks: _ARG_RType, Funct3: 0b_010, Funct7: 0b_101_0000},
+	AFLT_S:     {Opcode: _OpBase_OP_FP, ArgMarks: _ARG_RType, Funct3: 0b_001, Funct7: 0b_101_0000},
 	AFLE_S:     {Opcode: _OpBase_OP_FP, ArgMarks: _ARG_RType, Funct7: 0b_101_0000},
-	AFCLASS_S:  {Opcode: _OpBase_OP_FP, ArgMarks: _ARG_RType, Funct7: 0b_111_0000, Rs2: newU32(0b_0_0000)},
+	AFCLASS_S:  {Opcode: _OpBase_OP_FP, ArgMarks: _ARG_RType, Funct3: 0b_001, Funct7: 0b_111_0000, Rs2: newU32(0b_0_0000)},
 	AFCVT_S_W:  {Opcode: _OpBase_OP_FP, ArgMarks: _ARG_RType, Funct7: 0b_110_1000, Rs2: newU32(0b_0_0000)},
 	AFCVT_S_WU: {Opcode: _OpBase_OP_FP, ArgMarks: _ARG_RType, Funct7: 0b_110_1000, Rs2: newU32(0b_0_0001)},
 	AFMV_W_X:   {Opcode: _OpBase_OP_FP, ArgMarks: _ARG_RType, Funct7: 0b_111_1000, Rs2: newU32(0b_0_0000)},
@@ -333,26 +333,26 @@ var _AOpContextTable = []_OpContextType{
 
 	AFLD:       {Opcode: _OpBase_LOAD_FP, ArgMarks: _ARG_IType, Funct3: 0b_011},
 	AFSD:       {Opcode: _OpBase_STORE_FP, ArgMarks: _ARG_SType, Funct3: 0b_011},
-	AFMADD_D:   {Opcode: _OpBase_MADD, ArgMarks: _ARG_R4Type, Funct7: 0b_00},  // funct2
-	AFMSUB_D:   {Opcode: _OpBase_MSUB, ArgMarks: _ARG_R4Type, Funct7: 0b_00},  // funct2
-	AFNMSUB_D:  {Opcode: _OpBase_NMADD, ArgMarks: _ARG_R4Type, Funct7: 0b_00}, // funct2
-	AFNMADD_D:  {Opcode: _OpBase_NMSUB, ArgMarks: _ARG_R4Type, Funct7: 0b_00}, // funct2
+	AFMADD_D:   {Opcode: _OpBase_MADD, ArgMarks: _ARG_R4Type, Funct7: 0b_01},  // funct2
+	AFMSUB_D:   {Opcode: _OpBase_MSUB, ArgMarks: _ARG_R4Type, Funct7: 0b_01},  // funct2
+	AFNMSUB_D:  {Opcode: _OpBase_NMSUB, ArgMarks: _ARG_R4Type, Funct7: 0b_01}, // funct2
+	AFNMADD_D:  {Opcode: _OpBase_NMADD, ArgMarks: _ARG_R4Type, Funct7: 0b_01}, // funct2
 	AFADD_D:    {Opcode: _OpBase_OP_FP, ArgMarks: _ARG_RType, Funct7: 0b_000_0001},
 	AFSUB_D:    {Opcode: _OpBase_OP_FP, ArgMarks: _ARG_RType, Funct7: 0b_000_0101},
 	AFMUL_D:    {Opcode: _OpBase_OP_FP, ArgMarks: _ARG_RType, Funct7: 0b_000_1001},
 	AFDIV_D:    {Opcode: _OpBase_OP_FP, ArgMarks: _ARG_RType, Funct7: 0b_000_1101},
 	AFSQRT_D:   {Opcode: _OpBase_OP_FP, ArgMarks: _ARG_RType, Funct7: 0b_010_1101, Rs2: newU32(0b_0_0000)},
 	AFSGNJ_D:   {Opcode: _OpBase_OP_FP, ArgMarks: _ARG_RType, Funct7: 0b_001_0001},
-	AFSGNJN_D:  {Opcode: _OpBase_OP_FP, ArgMarks: _ARG_RType, Funct7: 0b_001_0001},
-	AFSGNJX_D:  {Opcode: _OpBase_OP_FP, ArgMarks: _ARG_RType, Funct7: 0b_001_0001},
+	AFSGNJN_D:  {Opcode: _OpBase_OP_FP, ArgMarks: _ARG_RType, Funct3: 0b_001, Funct7: 0b_001_0001},
+	AFSGNJX_D:  {Opcode: _OpBase_OP_FP, ArgMarks: _ARG_RType, Funct3: 0b_010, Funct7: 0b_001_0001},
 	AFMIN_D:    {Opcode: _OpBase_OP_FP, ArgMarks: _ARG_RType, Funct7: 0b_001_0101},
-	AFMAX_D:    {Opcode: _OpBase_OP_FP, ArgMarks: _ARG_RType, Funct7: 0b_001_0101},
+	AFMAX_D:    {Opcode: _OpBase_OP_FP, ArgMarks: _ARG_RType, Funct3: 0b_001, Funct7: 0b_001_0101},
 	AFCVT_S_D:  {Opcode: _OpBase_OP_FP, ArgMarks: _ARG_RType, Funct7: 0b_010_0000, Rs2: newU32(0b_0_0001)},
 	AFCVT_D_S:  {Opcode: _OpBase_OP_FP, ArgMarks: _ARG_RType, Funct7: 0b_010_0001, Rs2: newU32(0b_0_0000)},
-	AFEQ_D:     {Opcode: _OpBase_OP_FP, ArgMarks: _ARG_RType, Funct7: 0b_101_0001},
-	AFLT_D:     {Opcode: _OpBase_OP_FP, ArgMarks: _ARG_RType, Funct7: 0b_101_0001},
+	AFEQ_D:     {Opcode: _OpBase_OP_FP, ArgMarks: _ARG_RType, Funct3: 0b_010, Funct7: 0b_101_0001},
+	AFLT_D:     {Opcode: _OpBase_OP_FP, ArgMarks: _ARG_RType, Funct3: 0b_001, Funct7: 0b_101_0001},
 	AFLE_D:     {Opcode: _OpBase_OP_FP, ArgMarks: _ARG_RType, Funct7: 0b_101_0001},
-	AFCLASS_D:  {Opcode: _OpBase_OP_FP, ArgMarks: _ARG_RType, Funct7: 0b_111_0001, Rs2: newU32(0b_0_0000)},
+	AFCLASS_D:  {Opcode: _OpBase_OP_FP, ArgMarks: _ARG_RType, Funct3: 0b_001, Funct7: 0b_111_0001, Rs2: newU32(0b_0_0000)},
 	AFCVT_W_D:  {Opcode: _OpBase_OP_FP, ArgMarks: _ARG_RType, Funct7: 0b_110_0001, Rs2: newU32(0b_0_0000)},
 	AFCVT_WU_D: {Opcode: _OpBase_OP_FP, ArgMarks: _ARG_RType, Funct7: 0b_110_0001, Rs2: newU32(0b_0_0001)},
 	AFCVT_D_W:  {Opcode: _OpBase_OP_FP, ArgMarks: _ARG_RType, Funct7: 0b_110_1001, Rs2: newU32(0b_0_0000)},
